@@ -31,8 +31,8 @@ ASSUMPTIONS = [
     "watchdog aborts (a task blocked on a real lock held by a parked thread) are inconclusive, never violations",
     "context_behavior and template_cache_size are process-wide settings, fixed per case",
 ]
-BOUNDS = {"quick": {"hyp": 480, "single_pairs": 7, "double_pairs": 2}, "thorough": {"hyp": 40000, "single_pairs": 16, "double_pairs": 4}}
-CFG = {"provide": True, "inject": True, "errors": False, "isfilled": False, "max_nodes": 3, "max_comps": 2, "max_depth": 2, "provide_weight": 3, "inject_pct": 70, "ticks": True, "hooks": False}
+BOUNDS = {"quick": {"hyp": 480, "single_pairs": 9, "double_pairs": 2}, "thorough": {"hyp": 40000, "single_pairs": 18, "double_pairs": 4}}
+CFG = {"provide": True, "inject": True, "errors": False, "isfilled": False, "max_nodes": 3, "max_comps": 2, "max_depth": 2, "provide_weight": 3, "inject_pct": 70, "ticks": True, "hooks": False, "elems": True}
 
 SRCS = ["A{{ v }}", "B{% if v %}{{ v }}{% endif %}", "C{{ v|upper }}", "D{% for i in v %}{{ i }}{% endfor %}", "E"]
 
@@ -83,7 +83,7 @@ def build_tasks(case):
 
                 vf_tags.TICK["fn"] = None  # tag/filter ticks are process-global: only gcd/inject ticks are used here
                 out = Template(src).render(Context(dict(ctx)))
-                return normalize_ids(pg.normalize_real(out)), sorted(map(tuple, rec.injected))
+                return normalize_ids(out)  # ids kept (renamed by first appearance): a lost / foreign data-djc-id attribute is a difference, sorted(map(tuple, rec.injected))
 
             tasks.append(run)
         elif kind == "compile":
@@ -148,7 +148,7 @@ def build_tasks(case):
                     out = cls.render(kwargs={"v": "x"}, render_dependencies=False)
                 else:
                     return [cls.js, cls.css, cls.template is not None, list(cls.media._js)]
-                return normalize_ids(pg.normalize_real(out))
+                return normalize_ids(out)  # ids kept (renamed by first appearance): a lost / foreign data-djc-id attribute is a difference
 
             tasks.append(run)
         elif kind == "parsetag":
@@ -167,7 +167,7 @@ def build_tasks(case):
                 outs = []
                 for j in range(n):
                     tpl = Template("{%% component 'pt%d' v='%d' %%}f%d{%% endcomponent %%}{%% component 'pt%d' / %%}" % (i, j, j, i))
-                    outs.append(normalize_ids(pg.normalize_real(tpl.render(Context({})))))
+                    outs.append(normalize_ids(tpl.render(Context({}))))
                 return outs
 
             tasks.append(run)
@@ -374,6 +374,17 @@ _PROV2 = {
     ],
     "page": {"ctx": {"g": "q"}, "tpl": [{"t": "comp", "name": "c0", "kwargs": {}, "only": False, "body": None}]},
 }
+E = lambda tag, m, c: {"t": "elem", "tag": tag, "m": m, "c": c}  # noqa: E731
+C = lambda name: {"t": "comp", "name": name, "kwargs": {}, "only": False, "body": None}  # noqa: E731
+# root component whose root-level children are components (ids are handed from parent to child through a side table)
+_ELEM = {
+    "comps": [
+        {"name": "c0", "params": [], "data": [], "tpl": [C("c1"), E("div", "e1", [T("r")]), C("c2"), C("c1")]},
+        {"name": "c1", "params": [], "data": [], "tpl": [E("span", "e2", [T("x")]), C("c2")]},
+        {"name": "c2", "params": [], "data": [], "tpl": [E("b", "e3", [T("y")])]},
+    ],
+    "page": {"ctx": {}, "tpl": [C("c0"), C("c2")]},
+}
 DOUBLE_PAIRS = [
     {"tasks": [{"t": "fail", "program": _PROV2, "at": 3}, {"t": "render", "program": _PROV2}], "mode": "django", "cache_size": 2, "focus": ["provide.py"]},
     {"tasks": [{"t": "render", "program": _PROV2}, {"t": "fail", "program": _PROV2, "at": 2}], "mode": "isolated", "cache_size": 2, "focus": ["provide.py"]},
@@ -382,6 +393,8 @@ DOUBLE_PAIRS = [
 ]
 FIXED_PAIRS = [
     {"tasks": [{"t": "filecomp", "how": 0}, {"t": "filecomp", "how": 1}], "mode": "django", "cache_size": 2},
+    {"tasks": [{"t": "render", "program": _ELEM}, {"t": "render", "program": _ELEM}], "mode": "django", "cache_size": 2},
+    {"tasks": [{"t": "render", "program": _ELEM}, {"t": "fail", "program": _ELEM, "at": 3}], "mode": "isolated", "cache_size": 2},
     {"tasks": [{"t": "compile", "srcs": [0, 0, 0, 0]}, {"t": "compile", "srcs": [1, 2, 1, 3]}], "mode": "django", "cache_size": 1},
     {"tasks": [{"t": "compile", "srcs": [0, 1, 0, 1, 0]}, {"t": "compile", "srcs": [2, 3, 2]}], "mode": "django", "cache_size": 2},
     {"tasks": [{"t": "filecomp", "how": 2}, {"t": "filecomp", "how": 0}], "mode": "isolated", "cache_size": 2},
